@@ -72,6 +72,13 @@ TRUSTED = ['Lean 4.33 kernel', 'harness/props/c08.py + lean/Driver/C08.lean',
            'flexsolve root finders, chemicals/thermo correlations (parameters)', 'generator reach (see histogram)']
 
 NAMES = ['Water', 'Ethanol', 'Methanol', 'Propanol', 'Butanol', 'Octane', 'Hexane', 'Benzene', 'Toluene']
+# chemicals used only by the `psat-range-edge` class (single component at the ends of its vapour-pressure model)
+EXTRA_NAMES = ['Cyclohexane', 'tert-Butanol', 'EthylAcetate', 'Heptane']
+ALL_NAMES = NAMES + EXTRA_NAMES
+# (chemical, miscible partner listed next to it, which end of the Psat model lies inside 5e3–3e6 Pa)
+EDGES = [('Cyclohexane', 'Hexane', 'lower'), ('tert-Butanol', 'Ethanol', 'lower'), ('EthylAcetate', 'Toluene', 'lower'),
+         ('Benzene', 'Toluene', 'lower'), ('Octane', 'Toluene', 'upper'), ('Hexane', 'Octane', 'upper'),
+         ('Heptane', 'Octane', 'upper')]
 IMMISCIBLE = {frozenset(p) for p in
               [('Water', x) for x in ('Butanol', 'Octane', 'Hexane', 'Benzene', 'Toluene')] +
               [('Methanol', 'Octane'), ('Methanol', 'Hexane')]}
@@ -103,8 +110,9 @@ def setup():
         _dpm.gamma_iter._cache = NullCache()
     except Exception:
         pass
+    for n in ALL_NAMES:
+        CH[n] = (tmo.Chemical(n, search_ID='Ethyl acetate') if n == 'EthylAcetate' else tmo.Chemical(n, cache=True))
     for n in NAMES:
-        CH[n] = tmo.Chemical(n, cache=True)
         TSAT5K[n] = CH[n].Tsat(5e3)
 
 
@@ -363,7 +371,7 @@ class Run:
         else:
             seen.append(obj); n = len(seen) - 1
         g, f, c = PKG_KEY[pkg]
-        self.emit(f'inst {which} {g} {f} {c} {",".join(str(NAMES.index(i)) for i in ids)}', f'id {n}')
+        self.emit(f'inst {which} {g} {f} {c} {",".join(str(ALL_NAMES.index(i)) for i in ids)}', f'id {n}')
         ok = (tuple(obj.chemicals) == tuple(chems) and tuple(obj.IDs) == tuple(ids)
               and type(obj.gamma) is type(th.Gamma(chems)) and type(obj.phi) is type(th.Phi(chems))
               and type(obj.pcf) is type(th.PCF(chems)))
@@ -605,6 +613,7 @@ def run_impl(case: Case) -> ImplResult:
     except Exception:
         pass
     r = Run(ids, pkg)
+    if case.meta.get('edge'): r.tags.add('psat-range-edge:' + case.meta['edge'])
     for line in case.ops[1:]:
         t = line.split(' ')
         op = t[0]
@@ -675,6 +684,17 @@ def run_impl(case: Case) -> ImplResult:
                         r.order(m[-1], bub, dew, f'{PKG_NAMES[pkg]} {ids} z={b.tolist()} (shared buffer) at spec={spec!r}')
                 prev = (m, spec, res)
             r.tags.add('buffer-history')
+        elif op == 'trace':
+            # zero level vs trace level: the call with absent chemicals (for one chemical present: the N = 1 shortcut
+            # through Chemical.Tsat/Psat) and the call with those chemicals at a trace `eps·Σz` (the general solver) must
+            # give the same point
+            method, spec, eps, z = t[1], float(t[2]), float(t[3]), np.array(parse_z(t[4]))
+            a = r.solve(method, spec, z)
+            zt = np.where(z > 0, z, eps * z.sum())
+            b = r.solve(method, spec, zt, label=f'[trace={eps:g}]')
+            r.same(method[-1], a, b, f'{method} {ids} spec={spec!r}: z={z.tolist()} vs the same with absent chemicals at {eps:g}',
+                   f'trace-continuity:{method}')
+            r.tags.add('zero-vs-trace')
         elif op == 'xpkg':
             # the same chemicals under two packages inside one case: each must satisfy ITS package's equation
             method, spec, other, z = t[1], float(t[2]), int(t[3]), np.array(parse_z(t[4]))
@@ -931,6 +951,35 @@ def gen_azeo_case(rng, which=None):
     return Case(ops, {'azeotrope': True})
 
 
+def gen_edge_case(rng, which):
+    """single component at the ends of its vapour-pressure model: P-specified (Chemical.Tsat) and T-specified calls within
+    a few K of Psat.Tmin / Psat.Tmax, on both sides of the `± 1 K` margin Chemical.Tsat brackets with, round trips, and the
+    same call with the absent chemical at a trace (general solver)."""
+    chem, partner, end = EDGES[which]
+    three = rng.random() < 0.3
+    ids = [partner, chem] if rng.random() < 0.5 else [chem, partner]
+    if three: ids.insert(rng.randrange(3), rng.choice([n for n in ('Toluene', 'Ethanol', 'Hexane') if n not in ids]))
+    pkg = rng.choice([0, 1, 1, 2])
+    z = [1.0 if i == chem else 0.0 for i in ids]
+    if rng.random() < 0.3: z = [v * rng.choice([2.5, 1e-3, 40.0]) for v in z]
+    ps = CH[chem].Psat
+    ops = [f'sys {pkg} {",".join(ids)}']
+    for _ in range(rng.randrange(3, 6)):
+        u = rng.choice([rng.uniform(0.03, 0.97), rng.uniform(0.03, 0.97), rng.uniform(1.03, 4.0)])
+        T0 = round(ps.Tmin + u if end == 'lower' else ps.Tmax - u, 3)
+        P0 = float(ps(T0))
+        if not 5e3 <= P0 <= 3e6: continue
+        P = round(P0, 2)
+        r = rng.random()
+        w = rng.choice(['bub', 'dew'])
+        if r < 0.3: ops.append(f'rt {w} T {T0!r} {zs(z)}')
+        elif r < 0.5: ops.append(f'rt {w} P {P!r} {zs(z)}')
+        elif r < 0.8: ops.append(f'trace {w}T {P!r} {rng.choice([1e-10, 1e-9])!r} {zs(z)}')
+        elif r < 0.9: ops.append(f'trace {w}P {T0!r} 1e-10 {zs(z)}')
+        else: ops.append(f'ord T {P!r} {zs(z)}')
+    return Case(ops, {'edge': end}) if len(ops) > 1 else None
+
+
 def gen_perm_sweep(rng, n):
     """all permutations (n ≤ 4) or a sample of 24 (n = 5; all 120 in the thorough tier's sweep) of one system,
     each for one method, plus the three k values."""
@@ -962,6 +1011,10 @@ def generate(rng, tier, index, nworkers):
                 sp = gen_spec(rng, ids, 'P' if mm.endswith('T') else 'T')
                 if sp is not None: ops.append(f'scale {mm} {sp!r} {k!r} {zs(z)}')
         yield Case(ops, {'sweep': True})
+    # single component at the ends of its vapour-pressure model (every listed chemical once per worker, quick tier)
+    for i in range(len(EDGES) if tier == 'quick' else 4 * len(EDGES)):
+        c = gen_edge_case(rng, i % len(EDGES))
+        if c is not None: yield c
     # near-azeotropic miscible binaries (a fixed share: every pair at least once per worker in the quick tier)
     for i in range(len(AZEOTROPES) if tier == 'quick' else 5 * len(AZEOTROPES)):
         yield gen_azeo_case(rng, i % len(AZEOTROPES))
@@ -995,6 +1048,13 @@ def corpus():
         Case(['sys 0 Benzene,Toluene,Hexane', 'ord P 360.0 0.3,0.3,0.4', 'ord T 101325.0 0.3,0.3,0.4',
               'rt bub T 360.0 0.3,0.3,0.4', 'rt dew P 101325.0 0.3,0.3,0.4', 'perm bubT 101325.0 2,0,1 0.3,0.3,0.4',
               'perm dewP 360.0 1,2,0 1e-09,0.5,0.5']),
+        # one chemical present, within 1 K of the lower end of its Psat model (P-specified → Chemical.Tsat) and its trace twin
+        Case(['sys 1 Hexane,Cyclohexane', 'rt bub T 280.26 0.0,1.0', 'rt dew T 280.26 0.0,1.0', 'trace bubT 5461.84 1e-10 0.0,1.0',
+              'trace dewT 5461.84 1e-10 0.0,1.0', 'pt bubT 5400.0 1.0 0.0,2.0', 'rt bub P 5600.0 0.0,1.0'], {'edge': 'lower'}),
+        Case(['sys 0 tert-Butanol,Ethanol', 'rt bub T 299.37 1.0,0.0', 'trace dewT 6051.7 1e-10 1.0,0.0', 'pt dewT 6200.0 1.0 1.0,0.0'],
+             {'edge': 'lower'}),
+        Case(['sys 1 Octane,Toluene', 'rt bub T 568.24 1.0,0.0', 'pt dewT 2466095.8 1.0 1.0,0.0', 'trace bubT 2430000.0 1e-10 1.0,0.0'],
+             {'edge': 'upper'}),
         # near a pressure-maximum azeotrope the dew/bubble pressure is outside [min Psat, max Psat]
         Case(['sys 1 Water,Propanol'] + [f'rt dew T 360.0 {1 - x:.1f},{x:.1f}' for x in (0.1, 0.3, 0.5, 0.7, 0.9)]
              + ['ord P 360.0 0.6,0.4', 'rt bub T 360.0 0.6,0.4'], {'azeotrope': True}),
